@@ -158,7 +158,7 @@ var checks = []Check{
 		Rule: "one run = one shipped spec/Go pair (drawn) whose real generated archetypes run in the spec world with small drawn constants under a seeded schedule and seeded resolution of every either/with and environment choice; the full spec state (pc, stack, every archetype local under its PlusCal-translation name, every global) is recorded after every committed step; TLC evaluates the spec's own Init on the first state and Next (or stuttering) on every consecutive pair (batches of 100 traces, one TLC start per system and constant assignment); non-trivial = at least 3 validated steps; distinct = distinct interleaving digests; counters spec_steps_<system> give the validated steps per pair",
 		Real: append([]string{"the specification's next-state relation: the .tla file read from /repo at check time, evaluated by TLC (tla2tools.jar)"}, realA...), Stub: stubA,
 		Assumptions: []string{"TLC is the reference evaluator of the spec's Next; values are printed by an independent TLA+ printer (verif/tlc.Render)", "pairs not wired yet are listed in DESIGN.md; only wired pairs are claimed"},
-		MustProbe:   []string{"system_locksvc", "system_raftkvs"}, MinRunsForProbes: 500,
+		MustProbe:   []string{"system_locksvc", "system_raftkvs", "system_pbkvs"}, MinRunsForProbes: 200,
 	},
 	{
 		ID: "C08", Pkg: "checks/c08", Instr: coreInstr,
@@ -175,6 +175,14 @@ var checks = []Check{
 		Real: realA, Stub: stubA,
 		Assumptions: []string{"porcupine time-outs counted as inconclusive", "<= 18 operations per history"},
 		MustProbe:   []string{"client_ops_recorded", "two_or_more_elections"}, MinRunsForProbes: 1000,
+	},
+	{
+		ID: "C14", Pkg: "checks/c14", Instr: coreInstr,
+		QuickRuns: 40000, ThoroughRuns: 2000000, QuickBudgetS: 60, ThoroughBudgetS: 1200, ShrinkS: 45,
+		Rule: "one run = the generated AReplica x 1-4 and AClient x 1-3 archetypes of systems/pbkvs in the spec world (ReliableFIFOLink per <<id, typ>>, NetworkToggle, PerfectFD, LeaderElection on the alive set, NetworkBufferLength, FileSystem, Channel of 1-6 client requests with unique Put values), EXPLORE_FAIL in two thirds of the runs with every mayFail branch a stream decision, bounded so that one replica survives; the stream picks which archetype takes its next label; after every committed step ConsistencyOK as written in the spec (primary at sndResp => every alive replica holds the primary's fs), no spec assertion fails; the clients' history is checked with porcupine against a register; non-trivial = at least 2 client operations and 2 replicas; distinct = distinct interleaving digests",
+		Real: realA, Stub: stubA,
+		Assumptions: []string{"perfect failure detector (fd written only by the failing replica's failLabel), as the property states", "KEY_SET = {KEY1} as in the spec"},
+		MustProbe:   []string{"replica_crashed", "primary_about_to_answer", "primary_crashed_mid_replication", "ops_with_crashes"}, MinRunsForProbes: 1000,
 	},
 }
 
